@@ -78,6 +78,11 @@ func marshalTTY(v any, isTTY bool, defaultRoot, defaultElement string) ([]byte, 
 
 	case [][]string:
 		var i int
+		if len(t) == 0 {
+			// an empty table has no heading row either
+			v = []any{}
+			break
+		}
 		v = make([]any, len(t)-1)
 		err := types.Table2Map(t, func(m map[string]any) error {
 			v.([]any)[i] = m
